@@ -142,6 +142,11 @@ def rep_fields(f):
                 if env:
                     break
     req = fields_by_type(f, "rep::RepSocket", lambda ty: ty.startswith("std::option::Option<") and "PeerIdentity" in ty)
+    if not req:
+        # the marker may sit in a private newtype (`CurrentPeer(Option<PeerIdentity>)`): then it is `field.0`
+        from .c08 import marker_field
+        m = marker_field(f, "RepSocket")
+        req = [m] if m else []
     return (env[0] if env else None), (req[0] if req else None)
 
 
